@@ -460,3 +460,13 @@ Example C16_concrete_observers :
                    [1%Q; 1%Q; 0%Q; 1%Q; 0%Q] [1%Q; 1%Q; 0%Q; 0%Q; 1%Q] [] [] []
                    [0%Q; 1%Q; 0%Q; 1%Q; 0%Q] [1%Q; 1%Q; 0%Q; 0%Q; 1%Q] [] false false = 49.
 Proof. vm_compute. repeat split; reflexivity. Qed.
+
+(* ---------------- single decisions whose variants were seeded (Model/SmallVariants.v) ---------------- *)
+From Verif Require SmallVariants SmallVariantsP.
+(* an explicit seed is taken whatever its value is; `seed or own` ignores the seed 0 *)
+Theorem C16_reseed_takes_every_seed : forall own s : nat, SmallVariants.reseed own (Some s) = s.
+Proof. exact SmallVariantsP.reseed_takes_every_seed. Qed.
+Print Assumptions C16_reseed_takes_every_seed.
+Theorem C16_reseed_or_refuted : exists own : nat, SmallVariants.reseed_or own (Some 0%nat) <> SmallVariants.reseed own (Some 0%nat).
+Proof. exact SmallVariantsP.reseed_or_refuted. Qed.
+Print Assumptions C16_reseed_or_refuted.
